@@ -28,6 +28,7 @@ import (
 	"encoding/json"
 	"flag"
 	"fmt"
+	"math"
 	"os"
 	"runtime/debug"
 	"runtime/pprof"
@@ -118,6 +119,7 @@ type itemObs struct {
 	Queue  string
 	ID     uint64
 	Est    uint64
+	Ests   []uint64 // estimates submitted so far
 }
 
 type observation map[string]*itemObs
@@ -131,7 +133,9 @@ type env struct {
 	orig     []string                     // validator -> address of the genesis-registered key
 	alt      []string                     // validator -> address of its second key
 	names    map[string]string            // val address / acc address (bech32) -> validator name
-	gases    []uint64
+	gases    []uint64                     // estimate values any validator may submit at any time
+	special  []uint64                     // constants the code treats specially: submitted only while every estimate on the item has that value (so the elected median is exactly it)
+	seeds    []uint64
 	hostil   int // number of validators for which the invalid kinds are enumerated
 	recov    map[string]string
 	token    skywaytypes.EthAddress
@@ -181,10 +185,19 @@ func run(r *report.Run, shard, nshards int, replayFile string) {
 		e.names[v.ValAddr.String()] = v.Name
 		e.names[v.Addr.String()] = v.Name
 	}
+	// 300_000 is the value the UpdateValset / CompassHandover hashers and the batch
+	// checkpoint substitute for "no estimate yet" (x/evm/types/turnstone_abi.go:116,245,
+	// x/skyway/types/batch.go:17): electing exactly it leaves those bytes as they were.
+	// 100_000 is the default of every fee field (feesOrDefault); 0 is "no estimate"
+	// (median 0 is refused by libcons); 1 and MaxUint64 are the ends of the domain
+	// (fee computation refuses what does not fit uint64).
 	e.gases = []uint64{21_000}
+	e.special = []uint64{300_000}
+	e.seeds = []uint64{21_000, 300_000}
 	e.hostil = 1
 	if r.Thorough() {
 		e.gases = []uint64{21_000, 90_000}
+		e.special = []uint64{300_000, 100_000, 0, 1, math.MaxUint64}
 		e.hostil = len(w.Vals)
 	}
 
@@ -256,7 +269,8 @@ func run(r *report.Run, shard, nshards int, replayFile string) {
 		"a compass-id change while a batch is open, snapshot rebuilds and message re-assignment (ReassignOrphanedMessages has no caller in the application) are outside the alphabet",
 		"registered Pubkey is the 20-byte address of the registered key (what StdChain and pigeon register) or, in the alias registration, the same address zero-padded to 32 bytes; the stored PublicKey of a signature is read the way the queue reads it (last 20 bytes)",
 		"signature byte V is accepted as 0/1 or 27/28 for batch confirms (representation, as skyway's EthAddressFromSignature)",
-		"quick tier: invalid signature kinds and alias registrations are enumerated for validator v0 only and one gas value; thorough: all validators, two gas values",
+		"quick tier: invalid signature kinds and alias registrations are enumerated for validator v0 only and estimates {21000, 300000}; thorough: all validators, estimates {21000, 90000} and the constants {300000, 100000, 0, 1, 2^64-1}",
+		"estimate alphabet: 300000 (fallback of the UpdateValset hasher and of the batch checkpoint when no estimate is set), 100000 (default of each fee field), 0, 1, 2^64-1 are submitted only while every estimate already on the item has the same value, so that the elected median is exactly that constant; the other values mix freely; seeds exist for 21000 and for 300000",
 		"only the turnstone queue of the chain is observed; its validators-balances, collect-fund-events and reference-block queues are empty at set-up and no operation of the alphabet feeds them",
 		"per-item scenarios assume that operations on one queued item do not influence how another item's signatures are handled; the all-items scenario checks the combination to a smaller depth",
 		"each scenario has a slice of the time budget and at most 80000 states per worker; what was cut is listed in caps_hit and depth_completed",
@@ -288,9 +302,9 @@ func run(r *report.Run, shard, nshards int, replayFile string) {
 		}
 	}
 	scens := []scen{
-		{"logic-call", []string{mkey}, 5, 7, 0.30},
-		{"update-valset", []string{vkey}, 5, 7, 0.55},
-		{"batch", []string{bkey}, 5, 7, 0.80},
+		{"logic-call", []string{mkey}, 4, 7, 0.30},
+		{"update-valset", []string{vkey}, 4, 7, 0.55},
+		{"batch", []string{bkey}, 4, 7, 0.80},
 		{"all-items", []string{mkey, vkey, bkey}, 3, 5, 1.0},
 	}
 	var specs []explore.Spec
@@ -302,17 +316,19 @@ func run(r *report.Run, shard, nshards int, replayFile string) {
 		}
 		ops := func(n *explore.Node) []explore.Op { return e.ops(n, filter) }
 		init := []*explore.Node{{Ctx: ctx, Ghost: g0}}
-		var labels []string
-		for _, k := range sc.items {
-			for _, v := range w.Vals[:2] {
-				if g0.obs[k].Kind == "batch" {
-					labels = append(labels, fmt.Sprintf("EstBatch(%s,%s,%d)", v.Name, k, e.gases[0]))
-				} else {
-					labels = append(labels, fmt.Sprintf("Estimate(%s,%s,%d)", v.Name, k, e.gases[0]))
+		for _, sg := range e.seeds {
+			var labels []string
+			for _, k := range sc.items {
+				for _, v := range w.Vals[:2] {
+					if g0.obs[k].Kind == "batch" {
+						labels = append(labels, fmt.Sprintf("EstBatch(%s,%s,%d)", v.Name, k, sg))
+					} else {
+						labels = append(labels, fmt.Sprintf("Estimate(%s,%s,%d)", v.Name, k, sg))
+					}
 				}
 			}
+			init = append(init, e.seed(ctx, g0, ops, labels))
 		}
-		init = append(init, e.seed(ctx, g0, ops, labels))
 		d := sc.dq
 		if r.Thorough() {
 			d = sc.dt
@@ -468,6 +484,9 @@ func (e *env) observe(ctx sdk.Context) observation {
 					}
 				}
 			}
+			for _, ge := range m.GetGasEstimates() {
+				it.Ests = append(it.Ests, ge.Value)
+			}
 			for _, sd := range m.GetSignData() {
 				it.Sigs = append(it.Sigs, sigObs{Val: e.name(sd.ValAddress.String()), Claimed: sd.ExternalAccountAddress, Pub: sd.PublicKey, Sig: sd.Signature})
 			}
@@ -503,6 +522,13 @@ func (e *env) observe(ctx sdk.Context) observation {
 			e.btsmemo[ck] = cp
 		}
 		it.Bytes = cp
+		ests, err := w.App.SkywayKeeper.GetBatchGasEstimateByNonceAndTokenContract(ctx, b.BatchNonce, b.TokenContract)
+		if err != nil {
+			panic(err)
+		}
+		for _, ge := range ests {
+			it.Ests = append(it.Ests, ge.Estimate)
+		}
 		confirms, err := w.App.SkywayKeeper.GetBatchConfirmByNonceAndTokenContract(ctx, b.BatchNonce, b.TokenContract)
 		if err != nil {
 			panic(err)
@@ -765,6 +791,21 @@ func (e *env) sign0(addr string, bts []byte) []byte {
 	return sig
 }
 
+// estimateValues is the estimate alphabet for an item in its current state.
+func (e *env) estimateValues(it *itemObs) []uint64 {
+	out := append([]uint64{}, e.gases...)
+	for _, sp := range e.special {
+		uniform := true
+		for _, x := range it.Ests {
+			uniform = uniform && x == sp
+		}
+		if uniform {
+			out = append(out, sp)
+		}
+	}
+	return out
+}
+
 // attempt describes one signature submission.
 type attempt struct {
 	kind    string
@@ -836,7 +877,7 @@ func (e *env) ops(n *explore.Node, filter map[string]bool) []explore.Op {
 							}}})
 						}))
 				}
-				for _, gas := range e.gases {
+				for _, gas := range e.estimateValues(it) {
 					gas := gas
 					ops = append(ops, e.step(fmt.Sprintf("Estimate(%s,%s,%d)", v.Name, key, gas), opCtx{-1, "", "Estimate"},
 						func(ctx sdk.Context, g *ghost) (string, *explore.Fail) {
@@ -858,7 +899,7 @@ func (e *env) ops(n *explore.Node, filter map[string]bool) []explore.Op {
 								Orchestrator: v.Addr.String(), Signature: hex.EncodeToString(at.sig), Metadata: world.Meta(v.Actor)})
 						}))
 				}
-				for _, gas := range e.gases {
+				for _, gas := range e.estimateValues(it) {
 					gas := gas
 					ops = append(ops, e.step(fmt.Sprintf("EstBatch(%s,%s,%d)", v.Name, key, gas), opCtx{-1, "", "EstBatch"},
 						func(ctx sdk.Context, g *ghost) (string, *explore.Fail) {
